@@ -3,7 +3,8 @@
 Deciding monitor: keys()/items()/values() are compared as lists with the sorted dict model;
 next(k) with the least stored key strictly greater than k for a probe set of query keys (stored
 keys, prefixes, extensions, +-1 neighbours, the empty key, random keys); nodes() with the
-reference trie's pre-order (prefixes, annotation) and with traverse(prefix)."""
+reference trie's pre-order (prefixes, annotation) and with traverse(prefix).  The same judgements
+are made on one long-lived iterator after every operation of generated histories."""
 import random
 import sys
 
@@ -12,24 +13,29 @@ from trie.iter import NodeIterator
 
 from vt import gen
 from vt.core import Raised, Violation, cut, hx, run_case_guarded, shrink_list
+from vt.engines import hexary_history as hh
 from vt.engines import hexary_static as hs
-from vt.ref.mpt import annot
+from vt.ref.mpt import RefTrie, annot
 
 ID = "C10"
 LEVEL = "exploration"
 RULE = (
     "case = one trie (built by a short history, prune on/off) x all iterator entry points x a probe "
-    "set of query keys for next(); evaluations = tries; distinct = distinct canonical shapes iterated; "
+    "set of query keys for next(); plus generated histories over which ONE long-lived iterator is "
+    "judged after every operation (batches, aborts, root_hash reassignment, states revisited); "
+    "evaluations = tries + histories; distinct = distinct canonical shapes iterated; "
     "non-trivial = at least 2 stored keys"
 )
 ASSUMPTIONS = ["for the empty trie nodes() may yield nothing or the single blank root node",
                "reference pre-order from vt/ref/mpt.py"]
 FLOORS = {
     "quick": {"next_queries": 30000, "next_none": 1000, "nodes_compared": 10000, "items_compared": 5000,
-              "q_prefix_of_stored": 2000, "q_extension_of_stored": 2000, "q_stored": 3000},
+              "q_prefix_of_stored": 2000, "q_extension_of_stored": 2000, "q_stored": 3000,
+              "long_lived_judgements": 5000, "long_lived_in_batch": 500, "long_lived_root_reassigned": 300},
     "thorough": {"next_queries": 300000, "next_none": 10000, "nodes_compared": 100000,
                  "items_compared": 50000, "q_prefix_of_stored": 20000, "q_extension_of_stored": 20000,
-                 "q_stored": 30000},
+                 "q_stored": 30000, "long_lived_judgements": 50000, "long_lived_in_batch": 5000,
+                 "long_lived_root_reassigned": 3000},
 }
 
 
@@ -48,9 +54,18 @@ def neighbours(k):
 
 
 def run_case(case, ctx):
+    if case.get("engine") == "hh":
+        return run_moving(case, ctx)
     t, db, model, ref = hs.build(case)
     rnd = random.Random(case.get("pseed", 0))
     it = NodeIterator(t)
+    judge(it, t, model, ref, rnd, ctx)
+    ctx.evaluated()
+    ctx.shape((ref.shape(), case.get("prune")), len(model) >= 2)
+
+
+def judge(it, t, model, ref, rnd, ctx, max_queries=None, where=""):
+    """everything the property says about one iterator over one state of one trie"""
     sk = sorted(model)
     items = cut(lambda: list(it.items()))
     if items != [(k, model[k]) for k in sk]:
@@ -87,7 +102,10 @@ def run_case(case, ctx):
     queries = set(gen.probe_keys(rnd, model, extra=4))
     for k in sk:
         queries.update(neighbours(k))
-    for q in sorted(queries):
+    queries = sorted(queries)
+    if max_queries is not None and len(queries) > max_queries:
+        queries = sorted(rnd.sample(queries, max_queries) + [b""])
+    for q in queries:
         got = cut(it.next, q)
         greater = [k for k in sk if k > q]
         e = greater[0] if greater else None
@@ -103,12 +121,62 @@ def run_case(case, ctx):
             ctx.count("q_prefix_of_stored")
         elif any(q.startswith(s) for s in sk):
             ctx.count("q_extension_of_stored")
+
+
+# --------------------------------------------------------------------- long-lived iterators
+class MovingRunner(hh.Runner):
+    """ONE NodeIterator created over the still empty trie and kept for the whole generated
+    history (plain operations, squash_changes blocks committed or aborted, for non-pruning tries
+    also root_hash pointed at an earlier root and back): after every operation it must describe
+    the trie's CURRENT contents.  Histories revisit earlier states (set then delete, overwrite
+    and overwrite back), so an iterator that remembers anything about a state it saw before is
+    exposed.  Inside an open block a second iterator lives on the batch trie."""
+
+    def __init__(self, case, ctx):
+        super().__init__(case, ctx)
+        self.it = NodeIterator(self.trie)
+        self.roots = []
+        self.bit = None
+
+    def look(self, it, trie, model, where):
+        try:
+            judge(it, trie, model, RefTrie(model), self.rnd, self.ctx, max_queries=8)
+        except Violation as v:
+            raise Violation(v.monitor, where + v.detail)
+        self.ctx.count("long_lived_judgements")
+
+    def after_op(self, op):
+        self.bit = None
+        self.look(self.it, self.trie, self.model, "long-lived iterator after %s: " % op[0])
+        if not self.prune:
+            self.roots.append((self.trie.root_hash, dict(self.model)))
+            if len(self.roots) > 1 and self.rnd.random() < 0.3:
+                old_root, old_model = self.rnd.choice(self.roots[:-1])
+                cur = self.trie.root_hash
+                self.trie.root_hash = old_root
+                self.look(self.it, self.trie, old_model, "long-lived iterator after root_hash was pointed at an earlier root: ")
+                self.trie.root_hash = cur
+                self.look(self.it, self.trie, self.model, "long-lived iterator after root_hash was pointed back: ")
+                self.ctx.count("long_lived_root_reassigned")
+        if len(self.model) >= 2:
+            self.ctx.shape(("moving", RefTrie(self.model).shape(), self.prune))
+
+    def after_batch_op(self, btrie, bmodel, op):
+        if self.bit is None:
+            self.bit = NodeIterator(btrie)
+        self.look(self.bit, btrie, bmodel, "iterator over the batch trie inside an open block: ")
+        self.look(self.it, self.trie, self.model, "long-lived iterator of the outer trie while a block is open: ")
+        self.ctx.count("long_lived_in_batch")
+
+
+def run_moving(case, ctx):
+    MovingRunner(case, ctx).run()
     ctx.evaluated()
-    ctx.shape((ref.shape(), case.get("prune")), len(model) >= 2)
 
 
 def shrink(case, monitor):
-    return shrink_list(sys.modules[__name__], case, monitor, field="hist")
+    field = "ops" if case.get("engine") == "hh" else "hist"
+    return shrink_list(sys.modules[__name__], case, monitor, field=field)
 
 
 def run_shard(ctx):
@@ -119,6 +187,13 @@ def run_shard(ctx):
         case = hs.gen_build(rnd, maxkeys=10 if ctx.tier == "quick" else 20)
         case["pseed"] = rnd.randrange(1 << 30)
         if i == 1:
+            ctx.sample(case)
+        run_case_guarded(mod, case, ctx)
+        if ctx.full:
+            return
+    for i in range(80 if ctx.tier == "quick" else 800):
+        case = hh.gen_history(rnd, rnd.randint(2, 16 if ctx.tier == "quick" else 40), batch_p=0.25)
+        if i == 0:
             ctx.sample(case)
         run_case_guarded(mod, case, ctx)
         if ctx.full:
